@@ -21,27 +21,34 @@ TRUSTED = [
     "Model/GettzResolve.lean mirrors GettzFunc.nocache statement by statement over an abstract environment; tied by gettz.resolve: "
     "the real nocache / GettzFunc.__call__ run on a temporary zoneinfo tree with patched TZPATHS, TZFILES, TZ (tzset), vendored "
     "database; the environment sent to the model is probed with Python's own os.path.join / str.replace / os.path.isfile / tzfile()",
+    "copy / deepcopy / pickle are not modelled: that clause of the property is decided by the oracle sweep only",
     "zone __eq__ table (Model/Factory.lean eqMethod/pyEq) tied by zone.eq / zone.eqm on every ordered pair of a pool of all zone kinds",
 ]
 ASSUMPTIONS = [
     "pre-emption inside WeakValueDictionary.setdefault is modelled (read / write are two steps) and exercised on the implementation by the "
     "fine-granularity stream (line events inside weakref.py); pre-emption inside C-level dict / OrderedDict operations is not (GIL-atomic)",
-    "in the factory state machine gettz.nocache(name) enters by its result class (cacheable zone / tzlocal-or-unnamed / None); the class is "
+    "in the factory state machine gettz.nocache(name) enters by its result class (new cacheable zone / tzlocal-or-unnamed / None / existing "
+    "shared object: tz.UTC or a vendored entry / raises); the class is "
     "what Model/GettzResolve.lean computes (cacheClass, theorem gettz_caches_exactly, tied by the cache-class comparison of gettz.resolve); "
     "whether tzstr accepts a string is a parameter of the resolution model (the TZ-string grammar is C08's); tz/win.py is not modelled; "
-    "an exception escaping nocache inside GettzFunc.__call__ (D-C18-badfile) is not a path of the state machine (the `with` releases the lock: checked)",
+    "a constructor / nocache raising under the lock is a path of the state machine (Res.raises -> xRelX, theorem exception_releases_lock; "
+    "exercised under threads with tzoffset('A','x'), tzstr('1'), gettz(b'x')); which names raise is a parameter (gettz raising on an unreadable "
+    "file is characterised by resolve_raises_only_on_unreadable_file; the property does not require anything there)",
     "set_cache_size is called with a non-negative integer",
     "tzutc: the singleton slot is filled by `UTC = tzutc()` while tz.py is imported (checked by the oracle); the theorem for the "
     "singleton assumes that initial state, and the model exhibits the two-object race of an un-initialised _TzSingleton class",
     "tzfile / tzrange payloads are abstract in the equality model (the compared attributes up to ==); that equal payloads give "
     "equal offsets is checked on the implementation over a grid of instants, not proved here (C04/C06/C08 own those models)",
 ]
-RULE = ("scripted single-thread sequences (call / instance / drop / gc / set_cache_size / cache_clear) over 20-22 keys with "
-        "strong-cache sizes 0..8, and 2-4 thread schedules at statement granularity (all schedules within the preemption "
-        "bound for fixed small cases, then seeded random cases with random schedules and reference drops); plus the direct "
-        "oracle on the process-wide factories and all ordered pairs / copies / pickles of a pool of every zone kind. "
-        "distinct = distinct (factory, cap, scripts, schedule) or (check, inputs); non-trivial = at least one cached request "
-        "completed / a comparison between two zones")
+RULE = ("scripted single-thread sequences (call / instance / drop / gc / set_cache_size / cache_clear; keys include ones whose "
+        "constructor raises and gettz names resolving to a shared object) over 21-27 keys with strong-cache sizes 0..8; 2-4 thread "
+        "schedules at statement granularity: for each fixed case EVERY schedule within a preemption bound when the evidence says "
+        "`exhaustive` for that case (quick tier: bound 1 for two threads, bound 0 for three; thorough tier: bounds 2-3 with a run budget, "
+        "truncated cases are flagged), then seeded random cases with random schedules and reference drops (every fourth also pre-empted "
+        "inside weakref.py); gettz name resolution on a temporary zoneinfo tree (sampled environments in the quick tier, all 980 in the "
+        "thorough tier); plus the direct oracle on the process-wide factories and all ordered pairs / copies / pickles of a pool of every "
+        "zone kind. distinct = distinct (factory, cap, scripts, schedule) or (check, inputs) — re-executions are not counted; "
+        "non-trivial = at least one cached request completed / a comparison between two zones / a resolution other than None")
 
 FLAVOURS = ["tzoffset", "tzstr", "gettz"]
 
@@ -81,7 +88,7 @@ def gen_script(rng, spec, nkeys, length):
 def scripted_runs(ctx, n_per_flavour):
     rng = ctx.subrng("scripts")
     out = []
-    with S.pinned_tz(S.LOCAL_TZ):
+    with S.gettz_env():
         for spec in FLAVOURS:
             for i in range(n_per_flavour):
                 cap = rng.choice([0, 1, 2, 3, 5, 8])
@@ -110,6 +117,17 @@ FIXED_CASES = [
     ("single", 8, [[("call", 0)], [("call", 0)]], 3),
     ("single0", 8, [[("call", 0)], [("call", 0)]], 3),
     ("tzoffset", 1, [[("call", 0, 0)], [("call", 0, 1)], [("call", 0, 0)]], 2),
+    # exceptional exits of the critical section: one thread's constructor raises under the lock
+    ("tzoffset", 1, [[("call", 20, 0)], [("call", 0, 0)]], 3),
+    ("tzstr", 1, [[("call", 20, 0), ("call", 0, 0)], [("call", 0, 1)]], 2),
+    ("gettz", 1, [[("call", 26, 0)], [("call", 0, 0)], [("call", 26, 1)]], 2),
+    # set_cache_size / cache_clear concurrently with requests
+    ("gettz", 8, [[("call", 0, 0), ("call", 0, 1)], [("setsize", 0)]], 2),
+    ("gettz", 2, [[("call", 0, 0)], [("setsize", 0)], [("call", 0, 1)]], 1),
+    ("gettz", 1, [[("call", 0, 0), ("call", 1, 0)], [("clear",)], [("setsize", 1)]], 1),
+    ("gettz", 0, [[("call", 0, 0), ("setsize", 3)], [("call", 1, 1), ("setsize", 1)]], 2),
+    # names that resolve to an existing shared object (UTC / GMT -> tz.UTC, vendored entry)
+    ("gettz", 1, [[("call", 22, 0), ("fresh", 23)], [("call", 23, 1), ("fresh", 24)]], 2),
 ]
 
 
@@ -120,6 +138,8 @@ FINE_CASES = [
     ("gettz", 1, [[("call", 0, 0)], [("call", 0, 1)]], 2),
     ("tzstr", 0, [[("call", 0, 0)], [("call", 0, 1)], [("call", 0, 0)]], 1),
     ("tzoffset", 1, [[("call", 0, 0), ("call", 1, 0)], [("call", 1, 1), ("call", 0, 1)]], 1),
+    ("gettz", 8, [[("call", 0, 0)], [("setsize", 0)], [("call", 0, 1)]], 1),
+    ("gettz", 2, [[("call", 0, 0), ("clear",)], [("call", 0, 1), ("setsize", 0)]], 1),
 ]
 
 
@@ -133,9 +153,10 @@ def gen_case(rng):
     if spec == "gettz":
         nz = len(S.zoneinfo_names())
         pool = rng.sample(range(nz), 2) + ([nz + rng.randrange(2)] if rng.random() < 0.3 else []) + \
-               ([nz + 2 + rng.randrange(2)] if rng.random() < 0.3 else [])
+               ([nz + 2 + rng.randrange(2)] if rng.random() < 0.3 else []) + \
+               ([nz + 4 + rng.randrange(4)] if rng.random() < 0.35 else []) + ([nz + 8] if rng.random() < 0.25 else [])
     else:
-        pool = rng.sample(range(nkeys), rng.choice([1, 2, 3]))
+        pool = rng.sample(range(nkeys - 1), rng.choice([1, 2, 3])) + ([nkeys - 1] if rng.random() < 0.3 else [])
     scripts = []
     for _ in range(nthreads):
         sc = []
@@ -160,28 +181,46 @@ def summarize(rec, spec, cap, scripts, extra):
          "schedule": rec["schedule"], "req": rec["request"], "labels": rec["labels"], "expect": rec["expect"],
          "rets": rec["rets"], "errors": rec["errors"], "deadlock": rec["deadlock"], "all_returned": rec["all_returned"],
          "dups": rec["dups"], "lock_balanced": rec["lock_balanced"], "strong": rec["strong"], "weak": rec["weak"],
-         "cap_now": rec["cap"], "steps": rec["steps"], "unmapped": rec["unmapped"]}
+         "cap_now": rec["cap"], "steps": rec["steps"], "unmapped": rec["unmapped"],
+         "lock_leaked": rec["lock_leaked"], "not_fresh": rec["not_fresh"], "dups_any_epoch": rec["dups_any_epoch"]}
     d.update(extra)
     return d
 
 
+def record_explore(ctx, cid, spec, scripts, bound, executed, distinct, exhaustive):
+    """per case: how many DISTINCT schedules were executed and whether that was every schedule within the bound"""
+    ctx.hist["explore_%s_%s_bound%d_distinct_schedules" % (cid, spec, bound)] = distinct
+    ctx.hist["explore_%s_%s_bound%d_exhaustive" % (cid, spec, bound)] = int(bool(exhaustive))
+    ctx.count("explore_executions", executed)
+    ctx.count("explore_cases_exhaustive" if exhaustive else "explore_cases_truncated")
+    ctx.note("schedule enumeration %s (%s, %d threads, preemption bound %d): %d distinct schedules, %s"
+             % (cid, spec, len(scripts), bound, distinct,
+                "EXHAUSTIVE (every schedule within the bound)" if exhaustive else "TRUNCATED by the run budget (not all schedules within the bound)"))
+
+
 def threaded_runs(ctx):
     """every schedule within the preemption bound for the fixed cases, then seeded random ones"""
-    if getattr(ctx, "_c18_threads", None) is not None:
+    if getattr(ctx, "_c18_threads", None) is not None and (getattr(ctx, "_c18_threads_full", False) or not ctx.escalated):
         return ctx._c18_threads
+    # (a broken obligation / a correspondence difference escalates: the failing-input search repeats the enumeration
+    #  with the thorough bounds and budgets)
+    ctx._c18_threads_full = (ctx.tier == "thorough" or ctx.escalated)
+    for k in [k for k in ctx.hist if k.startswith("explore_")]:
+        del ctx.hist[k]
+    ctx.notes[:] = [n for n in ctx.notes if not n.startswith("schedule enumeration")]
     runs = []
     ctx._c18_shape = []
-    max_runs = ctx.budget(60, 1000)
-    with S.pinned_tz(S.LOCAL_TZ):
+    max_runs = ctx.budget(160, 700)
+    with S.gettz_env():
         for ci, (spec, cap, scripts, bound) in enumerate(FIXED_CASES):
-            b = bound if ctx.tier == "thorough" or ctx.escalated else min(bound, 2)
+            b = bound if ctx.tier == "thorough" or ctx.escalated else (1 if len(scripts) <= 2 else 0)   # quick: small bounds, meant to be exhaustive
             def make(spec=spec, cap=cap, scripts=scripts):
                 return S.make_factory(spec, cap), scripts
             def on_run(rec, fac, scripts, spec=spec, cap=cap, ci=ci):
                 runs.append(summarize(rec, spec, cap, scripts, {"policy": "prefix", "case": ci}))
             try:
-                n, exhausted = S.explore(make, b, max_runs, on_run)
-                ctx.count("explore_case_%d_%s_bound%d_%s" % (ci, spec, b, "exhausted" if exhausted else "truncated"), n)
+                ex, distinct, exhaustive = S.explore(make, b, max_runs, on_run)
+                record_explore(ctx, "case%d" % ci, spec, scripts, b, ex, distinct, exhaustive)
             except S.ShapeChanged as ex:
                 ctx._c18_shape.append("%s: %s" % (spec, ex))
         for ci, (spec, cap, scripts, bound) in enumerate(FINE_CASES):
@@ -190,9 +229,9 @@ def threaded_runs(ctx):
             def on_run(rec, fac, scripts, spec=spec, cap=cap, ci=ci):
                 runs.append(summarize(rec, spec, cap, scripts, {"policy": "prefix", "case": "fine%d" % ci, "fine": True}))
             try:
-                b = bound if ctx.tier == "thorough" or ctx.escalated else 1
-                n, exhausted = S.explore(make, b, ctx.budget(80, 500), on_run, fine=True)
-                ctx.count("explore_fine_%d_%s_bound%d_%s" % (ci, spec, b, "exhausted" if exhausted else "truncated"), n)
+                b = bound if ctx.tier == "thorough" or ctx.escalated else (1 if len(scripts) <= 2 else 0)
+                ex, distinct, exhaustive = S.explore(make, b, ctx.budget(160, 400), on_run, fine=True)
+                record_explore(ctx, "fine%d" % ci, spec, scripts, b, ex, distinct, exhaustive)
             except S.ShapeChanged as ex:
                 ctx._c18_shape.append("%s: %s" % (spec, ex))
         rng = ctx.subrng("threads")
@@ -547,7 +586,7 @@ def oracle(ctx):
     # ---- threads: no exception, every call returns, one live object per key ----
     for r in threaded_runs(ctx):
         key = (r["spec"], r["cap"], json.dumps(r["scripts"]), tuple(r["schedule"]), r.get("seed"), r.get("fine"))
-        nontriv = any(x[3] and not x[4] for x in r["rets"])
+        nontriv = any(x[3] and not x[4] for x in r["rets"])           # at least one cached request completed
         ctx.case(key, nontrivial=nontriv)
         case = {k: r[k] for k in ("mode", "spec", "cap", "scripts", "schedule", "policy")}
         for k in ("seed", "env_rate", "fine", "stickiness"):
@@ -557,8 +596,14 @@ def oracle(ctx):
             ctx.violation("a factory call raised under threads: %s" % r["errors"][0]["exception"], case, r["errors"])
         if r["deadlock"] or not r["all_returned"]:
             ctx.violation("a factory call did not return (deadlock=%s)" % r["deadlock"], case, None)
-        if not r["lock_balanced"]:
-            ctx.violation("cache lock acquire/release unbalanced", case, None)
+        if not r["lock_balanced"] or r["lock_leaked"]:
+            ctx.violation("cache lock acquire/release unbalanced (an exception left the call holding the lock: %s)" % (r["lock_leaked"],), case, None)
+        if r["not_fresh"]:
+            ctx.violation("instance/nocache returned an object that another call of the run also returned: %r" % (r["not_fresh"],), case, None)
+        if any(x[5] for x in r["rets"]):
+            ctx.count("threaded_runs_with_a_raising_constructor")
+        if any(x[6] and not x[3] for x in r["rets"]):
+            ctx.count("threaded_runs_with_nocache_of_a_shared_object")
         if r["dups"]:
             if r["spec"] == "single0":
                 # a _TzSingleton class whose slot was NOT filled at import: the model predicts this race;
@@ -566,6 +611,12 @@ def oracle(ctx):
                 ctx.count("latent_race_uninitialised_singleton_class")
             else:
                 ctx.violation("two different live objects for one key: %r" % (r["dups"],), case, {"rets": r["rets"]})
+        elif r["dups_any_epoch"] and r["spec"] != "single0":
+            # full-strength reading (identity also across cache_clear): reported through the KNOWN mechanism (D-C18-clear)
+            ctx.count("threaded_runs_with_two_live_objects_across_cache_clear")
+            if ctx.hist["threaded_runs_with_two_live_objects_across_cache_clear"] <= 3:
+                ctx.violation("two different live objects for one key, the requests being separated by a cache_clear: %r" % (r["dups_any_epoch"],),
+                              dict(case, cross_clear=True, has_clear=any(o[0] == "clear" for sc in r["scripts"] for o in sc)), None)
         if len(ctx.samples) < 3 and r["policy"] == "random" and nontriv:
             ctx.sample({"spec": r["spec"], "cap": r["cap"], "scripts": r["scripts"], "schedule": r["schedule"][:40], "returns": r["rets"][:8]})
     for msg in getattr(ctx, "_c18_shape", [])[:1]:
@@ -614,8 +665,8 @@ def direct_identity(ctx, tz):
 
     def requests():
         out = [("gettz", n) for n in names + extra]
-        out += [("tzoffset", k) for k in S.OFFSET_KEYS]
-        out += [("tzstr", k) for k in S.STR_KEYS]
+        out += [("tzoffset", k) for k in S.OFFSET_KEYS if k not in S.OFFSET_RAISES]
+        out += [("tzstr", k) for k in S.STR_KEYS if k not in S.STR_RAISES]
         out += [("tzutc", None)]
         return out
 
@@ -668,8 +719,15 @@ def direct_identity(ctx, tz):
     for q in reqs:
         a = do(q)
         f1, f2 = fresh(q), fresh(q)
-        if f1 is None or (q[0] == "gettz" and isinstance(f1, tz.tzutc)):
-            continue          # None, or the names GMT / UTC without a zoneinfo file: the tzutc singleton by design
+        if f1 is None:
+            ctx.count("nocache_returns_None")
+            continue
+        if q[0] == "gettz" and f1 is tz.UTC:
+            # GMT / UTC without a zoneinfo file: nocache returns the constant tz.UTC.  NOT required to be fresh: the
+            # property itself says tzutc() returns one object, so a second tzutc cannot be demanded (model: Res.shared 0,
+            # theorem shared_constructor).  Counted, and checked explicitly in nocache_shared_oracle below.
+            ctx.count("nocache_returns_the_tzutc_singleton_freshness_not_required")
+            continue
         ctx.case(("fresh", q))
         ctx.count("fresh_constructor")
         if f1 is a or f2 is a or f1 is f2:
@@ -681,14 +739,15 @@ def direct_identity(ctx, tz):
             ctx.violation("instance/nocache object behaves differently from the cached one for %r" % (q,), {"op": "fresh_beh", "kind": q[0], "arg": q[1]}, None)
         if do(q) is not a:
             ctx.violation("instance/nocache disturbed the cache for %r" % (q,), {"op": "fresh_touch", "kind": q[0], "arg": q[1]}, None)
+    nocache_shared_oracle(ctx, tz)
     # the object returned is the one asked for
-    for n, o in S.OFFSET_KEYS:
+    for n, o in [k for k in S.OFFSET_KEYS if k not in S.OFFSET_RAISES]:
         z = tz.tzoffset(n, o)
         ctx.case(("offset_args", n, o))
         if z.tzname(None) != n or z.utcoffset(None) != datetime.timedelta(seconds=o):
             ctx.violation("tzoffset(%r, %r) returned a zone with name %r offset %r" % (n, o, z.tzname(None), z.utcoffset(None)),
                           {"op": "args", "kind": "tzoffset", "arg": [n, o]}, None)
-    for s, px in S.STR_KEYS:
+    for s, px in [k for k in S.STR_KEYS if k not in S.STR_RAISES]:
         z = tz.tzstr(s, px)
         ctx.case(("str_args", s, px))
         if behaviour(z) != behaviour(tz.tzstr.instance(s, px)) or z._s != s:
@@ -710,7 +769,11 @@ def direct_identity(ctx, tz):
     ctx.case(("retention",))
     alive = [r() is not None for r in refs]
     if len(names) >= 10 and alive != [False, False] + [True] * 8:
-        ctx.violation("strong cache does not retain exactly the 8 most recent zones: %r" % alive, {"op": "retention"}, None)
+        # the property does not fix the eviction policy or the size: not a violation (the LRU order is tied by fact.run)
+        ctx.count("retention_differs_from_lru_8_not_required")
+        ctx.note("strong cache does not retain exactly the 8 most recent zones: %r (not required by the property)" % alive)
+    else:
+        ctx.count("retention_is_lru_8")
     # cache_clear only affects retention (full-strength statement of the property)
     for n in names[:4]:
         a = tz.gettz(n)
@@ -720,6 +783,10 @@ def direct_identity(ctx, tz):
         if b is not a:
             ctx.violation("gettz(%r) returned a different object after cache_clear() although the first is still referenced" % n,
                           {"op": "cache_clear_identity", "name": n}, None)
+            # the known finding is about identity only: the new object must still be an equal zone that behaves identically
+            if not (b == a and a == b) or behaviour(a) != behaviour(b):
+                ctx.violation("gettz(%r) after cache_clear() is not equal to / behaves unlike the zone returned before" % n,
+                              {"op": "cache_clear_unequal", "name": n}, None)
         elif len(ctx.samples) < 8:
             ctx.sample({"op": "cache_clear_identity", "name": n, "same_object": True})
     # not required (and not checked): identity for gettz() / gettz('') / names resolving to tzlocal
@@ -728,6 +795,43 @@ def direct_identity(ctx, tz):
                 tz.tzoffset("A", 3600) is tz.tzoffset("A", datetime.timedelta(hours=1))})
     if tz.tzutc._TzSingleton__instance is not tz.UTC or tz.tzutc() is not tz.UTC:
         ctx.violation("tzutc singleton slot is not the import-time UTC object", {"op": "utc_preinit"}, None)
+
+
+def nocache_shared_oracle(ctx, tz):
+    """gettz.nocache for names that resolve to an EXISTING object (no file of that name on the search path):
+    * GMT / UTC -> the constant tz.UTC: required to be that very object (the tzutc clause of the property), freshness not required;
+    * a name found in the vendored database -> the entry held by the ZoneInfoFile: the property's "nocache … return fresh
+      equal objects" is read literally, so the same object twice is reported (known finding D-C18-nocache-vendored).
+    A real ZoneInfoFile is built from an in-memory tar (the vendored tarball is absent on this machine)."""
+    import io, tarfile
+    from dateutil.zoneinfo import ZoneInfoFile
+    data = open("/usr/share/zoneinfo/Asia/Tehran", "rb").read()
+    buf = io.BytesIO()
+    with tarfile.open(fileobj=buf, mode="w:gz") as tf:
+        ti = tarfile.TarInfo("Vend/Zone"); ti.size = len(data)
+        tf.addfile(ti, io.BytesIO(data))
+    zif = ZoneInfoFile(io.BytesIO(buf.getvalue()))
+    with RV.patched(None, [], [], zif):
+        g = type(tz.gettz)()
+        for n in ("UTC", "GMT"):
+            ctx.case(("nocache_utc", n))
+            a, b, c = tz.gettz.nocache(n), tz.gettz.nocache(n), g(n)
+            if not (a is tz.UTC and b is tz.UTC and c is tz.UTC and tz.tzutc() is tz.UTC):
+                ctx.violation("%r without a zoneinfo file must resolve to the tzutc singleton (tzutc() returns that very object)" % n,
+                              {"op": "nocache_utc_singleton", "name": n}, None)
+            else:
+                ctx.count("nocache_utc_is_the_singleton")
+        n = "Vend/Zone"
+        ctx.case(("nocache_vendored", n))
+        a, b, c = tz.gettz.nocache(n), tz.gettz.nocache(n), g(n)
+        if a is None or not (a == c and c == a) or behaviour(a) != behaviour(c):
+            ctx.violation("nocache(%r) from the vendored database is not equal to / behaves unlike gettz(%r)" % (n, n),
+                          {"op": "fresh_eq", "kind": "gettz-vendored", "arg": n}, None)
+        if a is b or a is c:
+            ctx.violation("gettz.nocache(%r) returned the vendored database's own entry (the same object every time), not a fresh object" % n,
+                          {"op": "fresh_vendored", "name": n, "same_as_previous_nocache": a is b, "same_as_cached": a is c}, None)
+        if g(n) is not c:
+            ctx.violation("gettz(%r) identity while referenced (vendored)" % n, {"op": "identity", "kind": "gettz", "arg": n}, None)
 
 
 def zone_laws(ctx, tz, env):
@@ -765,7 +869,10 @@ def zone_laws(ctx, tz, env):
 
 
 KNOWN = {
-    "D-C18-clear": lambda v: v["case"].get("op") == "cache_clear_identity",
+    "D-C18-clear": lambda v: v["case"].get("op") == "cache_clear_identity"
+                             or (v["case"].get("mode") == "threads" and v["case"].get("cross_clear") is True
+                                 and v["case"].get("has_clear") is True and v["case"].get("spec") == "gettz"),
+    "D-C18-nocache-vendored": lambda v: v["case"].get("op") == "fresh_vendored",
 }
 
 
@@ -774,7 +881,7 @@ def replay(ctx, payload):
     from dateutil import tz
     c = payload["violation"]["case"]
     if c.get("mode") == "threads":
-        with S.pinned_tz(S.LOCAL_TZ):
+        with S.gettz_env():
             fac = S.make_factory(c["spec"], c["cap"])
             scripts = [[tuple(o) for o in sc] for sc in c["scripts"]]
             if c.get("policy") == "random":
